@@ -22,6 +22,7 @@ def jobs(tier):
         mk('C01', 'child/raising', S.child('await', k=0, raising='parent_sibling')),
         mk('C01', 'redispatch', S.redispatch()),
         mk('C01', 'roots3', S.roots3()),
+        mk('C01', 'par/shared_child', S.par_shared_child()),
         mk('C01', 'samefn/AB', S.samefn(('A', 'B'))),
         mk('C01', 'samefn/BA', S.samefn(('B', 'A'))),
     ]
